@@ -13,10 +13,12 @@ import (
 	"bytes"
 	"context"
 	"encoding/binary"
+	"errors"
 	"fmt"
 	"io"
 	"os"
 	"runtime"
+	"sort"
 	"strconv"
 	"strings"
 	"sync"
@@ -325,11 +327,15 @@ type c09PipeConn struct {
 	once   sync.Once
 	buf    []byte
 	eof    chan struct{}
+
+	gateArmed   atomic.Bool
+	gateEntered chan []byte
+	gateResult  chan error
 }
 
 func newC09PipeConn(idx int) *c09PipeConn {
 	return &c09PipeConn{idx: idx, in: make(chan []byte, 4), idle: make(chan struct{}, 64), out: make(chan []byte, 64),
-		closed: make(chan struct{}), eof: make(chan struct{})}
+		closed: make(chan struct{}), eof: make(chan struct{}), gateEntered: make(chan []byte, 1), gateResult: make(chan error, 1)}
 }
 func (c *c09PipeConn) Read(b []byte) (int, error) {
 	for len(c.buf) == 0 {
@@ -361,6 +367,13 @@ func (c *c09PipeConn) Write(b []byte) (int, error) {
 	case <-c.closed:
 		return 0, io.ErrClosedPipe
 	default:
+	}
+	if c.gateArmed.CompareAndSwap(true, false) {
+		// a slow write: the harness sees the request registered but not yet written, and decides how it ends
+		c.gateEntered <- append([]byte(nil), b...)
+		if err := <-c.gateResult; err != nil {
+			return 0, err
+		}
 	}
 	c.out <- append([]byte(nil), b...)
 	return len(b), nil
@@ -410,7 +423,8 @@ type c09PipeWaiter struct {
 	c      int
 	id     int
 	slot   int
-	state  string // idle waiting done
+	state  string // idle writing waiting cancelled done
+	boxed  bool   // a value was put into its slot while it was still writing
 	cancel context.CancelFunc
 	done   chan c09PipeRes
 }
@@ -483,7 +497,7 @@ func (w *c09PipeWorld) finishWaiter(i int, r c09PipeRes) {
 func (w *c09PipeWorld) pendingOn(c int) int {
 	n := 0
 	for _, wt := range w.ws {
-		if (wt.state == "waiting" || wt.state == "cancelled") && wt.c == c && w.pcs[c].pending[wt.id].Load() != nil {
+		if (wt.state == "waiting" || wt.state == "cancelled" || wt.state == "writing") && wt.c == c && w.pcs[c].pending[wt.id].Load() != nil {
 			n++
 		}
 	}
@@ -512,8 +526,11 @@ func (w *c09PipeWorld) runCloser(c, k int) {
 		slot := w.slotTok(ev.arg.(*responseSlot))
 		id := -1
 		for _, wt := range w.ws {
-			if wt.slot == slot && wt.c == c && (wt.state == "waiting" || wt.state == "cancelled") {
+			if wt.slot == slot && wt.c == c && (wt.state == "waiting" || wt.state == "cancelled" || wt.state == "writing") {
 				id = wt.id
+				if wt.state == "writing" {
+					wt.boxed = true
+				}
 			}
 		}
 		w.st.Emit(fmt.Sprintf("P closeswap %d %d", c, id), fmt.Sprintf("held=%d", slot))
@@ -642,11 +659,12 @@ func c09PipeScenario(r *VRand, st *VStream, stat *VStats) (ok bool, where string
 		for i := 0; i < nw; i++ {
 			w.ws = append(w.ws, &c09PipeWaiter{state: "idle", slot: -1})
 		}
-		held := map[int]bool{} // connections whose readLoop is parked holding a slot
+		held := map[int]bool{}   // connections whose readLoop is parked holding a slot
+		writing := map[int]int{} // connection -> waiter whose request write is being held
 		tagSeq := 0
 		nops := 6 + r.Intn(26)
 		for op := 0; op < nops; op++ {
-			k := r.Intn(10)
+			k := r.Intn(11)
 			if k == 9 && !r.Chance(0.25) {
 				k = r.Intn(9)
 			}
@@ -663,10 +681,32 @@ func c09PipeScenario(r *VRand, st *VStream, stat *VStats) (ok bool, where string
 				tagSeq++
 				tag := c*1000 + tagSeq
 				pcn := w.pcs[c]
+				if _, busy := writing[c]; busy {
+					continue // writeMu is held by the slow write
+				}
+				slow := r.Chance(0.25)
+				if slow {
+					w.conns[c].gateArmed.Store(true)
+				}
+				wt.boxed = false
 				go func() {
 					m, err := pcn.RoundTrip(ctx, c09PipeQuery(tag))
 					wt.done <- c09PipeRes{m, err}
 				}()
+				if slow {
+					select {
+					case frame := <-w.conns[c].gateEntered:
+						wt.id = int(binary.BigEndian.Uint16(frame[2:4]))
+						wt.slot = w.slotTok(pcn.pending[wt.id].Load())
+						wt.state = "writing"
+						writing[c] = i
+						st.Emit(fmt.Sprintf("P start %d %d %d %d", i, c, wt.id, wt.slot), "ok")
+						stat.Inc("pipe.start.slow-write")
+					case <-time.After(c09PipeWait):
+						c09Lost("a RoundTrip did not reach its write within the budget")
+					}
+					continue
+				}
 				select {
 				case frame := <-w.conns[c].out:
 					wt.id = int(binary.BigEndian.Uint16(frame[2:4]))
@@ -735,6 +775,9 @@ func c09PipeScenario(r *VRand, st *VStream, stat *VStats) (ok bool, where string
 					if wt.state == "waiting" && wt.slot == slot {
 						delivered = true
 					}
+					if wt.state == "writing" && wt.slot == slot {
+						wt.boxed = true
+					}
 				}
 				// nobody waits on that slot any more: look into its channel (the send has happened once the
 				// channel is non-empty; a non-blocking send into an empty one-element channel always succeeds)
@@ -784,6 +827,48 @@ func c09PipeScenario(r *VRand, st *VStream, stat *VStats) (ok bool, where string
 					st.Emit(fmt.Sprintf("P set %d", slot), "box="+val)
 				}
 				stat.Inc("pipe.set")
+			case 10: // the held write ends: with an error, or the request goes out
+				var cs []int
+				for c := range writing {
+					cs = append(cs, c)
+				}
+				if len(cs) == 0 {
+					continue
+				}
+				sort.Ints(cs)
+				c := cs[r.Intn(len(cs))]
+				i := writing[c]
+				wt := w.ws[i]
+				delete(writing, c)
+				if r.Chance(0.6) {
+					w.conns[c].gateResult <- errors.New("write failed")
+					st.Emit(fmt.Sprintf("P writefail %d", i), fmt.Sprintf("pc=leaving:%d.%d.%d.0.write-err", c, wt.id, wt.slot))
+					stat.Inc("pipe.writefail")
+					select {
+					case res := <-wt.done:
+						st.Emit(fmt.Sprintf("P leave %d", i), "pc=done:"+w.resStr(res, c))
+						wt.state = "done"
+					case <-time.After(c09PipeWait):
+						c09Lost("a RoundTrip whose write failed did not return within the budget")
+					}
+					continue
+				}
+				w.conns[c].gateResult <- nil
+				select {
+				case <-w.conns[c].out:
+				case <-time.After(c09PipeWait):
+					c09Lost("a released write did not complete within the budget")
+				}
+				wt.state = "waiting"
+				stat.Inc("pipe.slow-write.completed")
+				if wt.boxed { // its answer (or the nil of a close) is already in the slot: it returns at once
+					select {
+					case res := <-wt.done:
+						w.finishWaiter(i, res)
+					case <-time.After(c09PipeWait):
+						c09Lost("a RoundTrip whose slot was already filled did not return within the budget")
+					}
+				}
 			case 8: // a waiter's context ends: pc.Close() runs closeWithErr in its goroutine
 				i := r.Intn(nw)
 				wt := w.ws[i]
@@ -847,9 +932,13 @@ func c09PipeScenario(r *VRand, st *VStream, stat *VStats) (ok bool, where string
 				w.runCloser(c, k)
 			}
 		}
-		// drain: release parked readLoops, close everything, collect waiters
+		// drain: release parked readLoops and held writes, close everything, collect waiters
 		verifYieldHook = nil
 		w.h.releaseAll()
+		for c, i := range writing {
+			w.conns[c].gateResult <- errors.New("write failed")
+			w.ws[i].state = "waiting"
+		}
 		for c := range w.pcs {
 			pcn := w.pcs[c]
 			closed := make(chan struct{})
